@@ -134,7 +134,9 @@ def gen_cases(seed, chunk, n, tier):
                 g = la[:]
                 rng.shuffle(g)
                 g = g[: rng.randint(2, len(g))]
-                steps.append({"out": ["af"], "op": "fuse", "in": ["a"], "params": {"groups": [g]}})
+                pfm = None if fermi else rng.choice(["insert", "concat"])
+                steps.append({"out": ["af"], "op": "fuse", "in": ["a"],
+                              "params": {"groups": [g]} if fermi else {"groups": [g], "mode": pfm}})
                 # new axis positions
                 pos = min(g)
                 rest = [i for i in range(a.ndim) if i not in g]
@@ -150,6 +152,17 @@ def gen_cases(seed, chunk, n, tier):
             r0, env = impl.run_prog(env, steps)
             if "ok" not in r0[0]:
                 orc = f"pre-fuse raised {r0[0].get('msg')}"
+            elif not fermi:
+                # both fuse strategies must hand the contraction the same pre-fused operand, and a valid one
+                try:
+                    g_ = tuple(steps[0]["params"]["groups"][0])
+                    alt = a.fuse(g_, mode="concat" if steps[0]["params"].get("mode") == "insert" else "insert")
+                    if not same_value(env["af"], alt):
+                        orc = "pre-fusing free legs: insert and concat strategies give different operands"
+                    elif oracle.py_valid(env["af"]):
+                        orc = "pre-fused operand is not a valid array: " + str(oracle.py_valid(env["af"]))
+                except Exception as e:  # noqa
+                    orc = f"pre-fusing free legs with the other strategy raised {type(e).__name__}: {e}"
         else:
             r0 = []
         res = list(r0)
@@ -189,8 +202,9 @@ def gen_cases(seed, chunk, n, tier):
                         x, y = env2[an], env2[bn]
                         x2, y2 = x.align_axes(y, (tuple(xa), tuple(xb)))
                         if x2.blocks and y2.blocks:
-                            xf = x2.fuse(tuple(xa))
-                            yf = y2.fuse(tuple(xb))
+                            fm = {} if fermi else {"mode": rng.choice(["insert", "concat"])}
+                            xf = x2.fuse(tuple(xa), **fm)
+                            yf = y2.fuse(tuple(xb), **fm)
                             pa = min(xa)
                             pb = min(xb)
                             ce = sr.tensordot(xf, yf, ((pa,), (pb,)), mode="blockwise", preserve_array=True)
@@ -204,7 +218,7 @@ def gen_cases(seed, chunk, n, tier):
                     if len(la) >= 2 and cb.blocks and env2[an].blocks:
                         try:
                             x = env2[an]
-                            xf = x.fuse(tuple(la))
+                            xf = x.fuse(tuple(la), **({} if fermi else {"mode": rng.choice(["insert", "concat"])}))
                             pos = min(la)
                             newaxes = [i for i in range(pos) if i not in la] + ["G"] + \
                                       [i for i in range(pos, x.ndim) if i not in la]
